@@ -711,3 +711,42 @@ def s_cw_hetero(seed=0, k_max=3, full=False):
                             wl, clus, fl, seed, tape=[], preload=True,
                             tag=f"S-cw-hetero k={k} rel={rels} cls={cls} "
                                 f"blocker={blocker} goal={goal}")
+
+
+def s_plan_batch(policies, seed=0, k_max=3):
+    """Planners with --scheduler_enable_batching: k <= 3 single-task graphs that share
+    one work profile (so they can be batched), every arrival vector in {0,1,2}^k, every
+    deadline-class vector, a strategy for one task and a slower one for a batch of two,
+    with and without a task of another profile that occupies the only CPU first."""
+    classes = {"tight": 3, "mid": 6, "loose": 12}
+    shared = {"name": "MS", "execution_strategies": [
+        {"batch_size": 1, "runtime": 2, "resource_requirements": {"CPU:any": 1}},
+        {"batch_size": 2, "runtime": 3, "resource_requirements": {"CPU:any": 1}}]}
+    other = {"name": "MO", "execution_strategies": [
+        {"batch_size": 1, "runtime": 4, "resource_requirements": {"CPU:any": 1}}]}
+    clus = cluster([dict(CPU=1)])
+    for k in range(2, k_max + 1):
+        for rels in itertools.product((0, 1, 2), repeat=k):
+            if list(rels) != sorted(rels):
+                continue
+            for cls in itertools.product(sorted(classes), repeat=k):
+                for blocker in (False, True):
+                    graphs = []
+                    if blocker:
+                        graphs.append({"name": "B0", "graph": [
+                            {"name": "R", "work_profile": "MO", "slo": 5}],
+                            "release_policy": "fixed", "period": 1, "invocations": 1,
+                            "start": 0, "deadline_variance": [0, 0]})
+                    for i in range(k):
+                        graphs.append({"name": f"Q{i}", "graph": [
+                            {"name": "R", "work_profile": "MS",
+                             "slo": classes[cls[i]]}],
+                            "release_policy": "fixed", "period": 1, "invocations": 1,
+                            "start": rels[i], "deadline_variance": [0, 0]})
+                    wl = {"profiles": [shared, other], "graphs": graphs}
+                    for pk, pf in policies.items():
+                        fl = dict(pf, scheduler_enable_batching=True,
+                                  unique_work_profiles=True)
+                        yield mk_world(wl, clus, fl, seed, tape=[],
+                                       tag=f"S-plan-batch k={k} rel={rels} cls={cls} "
+                                           f"blocker={blocker} p={pk}")
